@@ -160,10 +160,10 @@ def run(tier):
     seq = build.driver("seq", "net_drv")
     par = build.driver("par", "net_drv", libs=libs)
     tsan = build.driver("par-tsan", "net_drv", libs=libs)
-    total = 960 if tier == "quick" else 6000
+    total = 960 if tier == "quick" else 20000
     per = 20
     common.pmap(diff_work, [(seq, par, s, per, 3) for s in range(0, total, per)], res)
-    ttotal = 192 if tier == "quick" else 1600
+    ttotal = 192 if tier == "quick" else 4800
     common.pmap(tsan_work, [(tsan, s, 12, 3) for s in range(0, ttotal, 12)], res, jobs=8)
     res.gate("row-update tasks executed in parallel builds", res.counters.get("pivot row-update tasks executed", 0) > 1000)
     res.gate("tasks actually ran concurrently", res.counters.get("runs in which >= 2 row-update tasks were observed running at the same time", 0) > 0)
